@@ -10,9 +10,33 @@
 //!                                    (SHA-1 fingerprint of the primary key packet), independently of rpm-rs and the pgp crate
 //!   gpg                              additionally cross-check every fresh signature with gpgv (thorough tier)
 //!
+//!         further step forms (the signing side with its failure and panic paths):
+//!           s<K>@<kind>:<secs>:<nanos>  sign_with_timestamp with the instant as a u32 | sys (SystemTime) | utc (DateTime<Utc>) |
+//!                                       fix (DateTime<FixedOffset +05:45>); out of 0..2^32 the conversion is unwrapped: a panic
+//!           n<K>                        Package::sign(&signer) (= sign_with_timestamp(.., Timestamp::now()))
+//!           xP xF [@..]                 signers that refuse: the protected key without its passphrase (SignError), a foreign
+//!                                       `Signing` implementation answering Err(KeyNotFoundError)
+//!           r<hex>[@..]                 a foreign `Signing` implementation answering Ok(<these bytes>)
+//!   kinds latin1 | noncanon | swapped | extratag: the built2 package with a main header that is valid but NOT what the
+//!         library itself would lay out (a non-UTF-8 byte in a string; slack bytes at the end of the store; the data of
+//!         two entries swapped in the store; an extra entry with a tag below 1000), with the digest of the edited header recorded in the signature header
+//!
 //! observation: one record for the start state and one per step, joined by `;`:
-//!   `<4 verify bits R P E C>,<key ids joined by + | err>,<digests ok|err>,<fnv main header>,<fnv content>[,<gpgv ok|bad|skipped|->]`
-//!   a failing step gives the record `E:<op>` and ends the history.
+//!   `<4 verify bits R P E C>,<key ids joined by + | err>,<digests ok|err>,<fnv main header>,<fnv content>,<res>[,<gpgv ok|bad|skipped|->]`
+//!   res: `-` (start, clear, write+parse) | `t<creation time of the fresh signature>` (`tnow`: inside the window of the
+//!   `sign` call) | `e:<error class>` (the attempt was refused; the record shows the state it left)
+//!   a failing step gives the record `E:<op>`, a panicking one `P:<op>`; both end the history.
+//!
+//! further ops (ties of the scraped tables and of the signer's configuration, see lean/RpmVerif/Model/SignE.lean):
+//!   `sgbuild <alg>`   SignatureHeaderBuilder::build over a hand-made v4 signature packet of public-key algorithm <alg>
+//!                     → `ok <legacy tag>` | `err:<class>`
+//!   `sgnew <alg>`     pgp::Signer::new over a key of that algorithm → `ok <AlgorithmType>` | `err:<class>` | `unparsable`
+//!   `vfload <alg>`    pgp::Verifier::load_from_asc over an armoured key of that algorithm → the same
+//!   `sgcfg <alg> <t> <keyid> <fp>`  <pgp::Signer as Signing>::sign with a key of that algorithm (key id / fingerprint given,
+//!                     the secret-key operation faked) at Timestamp(t); the packet is read back:
+//!                     `v=<version> typ=<type> alg=<pub alg> hash=<hash alg> hashed=<sub-packet types> unhashed=<..> created=<secs> issuers=<hex,..> fps=<hex,..>`
+//!   `sgcfgk <K> <t>`  the same with the real key K (R P E C): `… issuers= fps=` as above
+//!   `tsopt <secs> <nsecs>`  chrono `Utc.timestamp_opt(secs, nsecs)`: `single <secs> <nsecs>` | `none`
 use crate::common::*;
 use rpm::signature::pgp::{Signer, Verifier};
 use std::cell::RefCell;
@@ -128,6 +152,89 @@ fn write_if_changed(path: &str, bytes: &[u8]) {
     std::fs::rename(&tmp, path).expect("rename start package");
 }
 
+/// the main header of serialised package `bytes`, taken apart (index entries as written, store), and where it sits
+fn split_main_header(bytes: &[u8]) -> Option<(usize, usize, crate::pkggen::GHeader)> {
+    let p = rpm::Package::parse(&mut &bytes[..]).ok()?;
+    let o = p.metadata.get_package_segment_offsets();
+    let (a, b) = (o.header as usize, o.payload as usize);
+    let h = bytes.get(a..b)?;
+    let n = u32::from_be_bytes(h.get(8..12)?.try_into().ok()?) as usize;
+    let dl = u32::from_be_bytes(h.get(12..16)?.try_into().ok()?) as usize;
+    if h.len() != 16 + 16 * n + dl {
+        return None;
+    }
+    let mut g = crate::pkggen::GHeader::new();
+    g.magic = [h[0], h[1], h[2]];
+    g.version = h[3];
+    g.reserved = [h[4], h[5], h[6], h[7]];
+    for i in 0..n {
+        let e = &h[16 + 16 * i..32 + 16 * i];
+        let w = |k: usize| u32::from_be_bytes(e[4 * k..4 * k + 4].try_into().unwrap());
+        g.entries.push(crate::pkggen::GEntry { tag: w(0), ty: w(1), off: w(2) as i32, cnt: w(3) });
+    }
+    g.store = h[16 + 16 * n..].to_vec();
+    Some((a, b, g))
+}
+
+/// start packages whose main header is valid but not laid out the way the library itself would lay it out: derived from
+/// the built2 package by editing the serialised main header and recording the digest of the edited header
+fn variant_start(kind: &str) -> Option<Vec<u8>> {
+    let base = build_start("built2").ok()?;
+    let mut bytes = Vec::new();
+    base.write(&mut bytes).ok()?;
+    let (a, b, mut g) = split_main_header(&bytes)?;
+    match kind {
+        "latin1" => {
+            // one byte of the summary ("two files") becomes 0xE9: not UTF-8, `from_utf8_lossy` would rewrite it
+            let at = g.store.windows(9).position(|w| w == b"two files")?;
+            g.store[at + 1] = 0xE9;
+        }
+        "noncanon" => {
+            // three slack bytes after the last datum: the declared store is larger than needed
+            g.store.extend_from_slice(&[0, 0, 0]);
+        }
+        "swapped" => {
+            // the data of NAME (1000) and VERSION (1001) — two STRING entries next to each other in the store — change places
+            let i = g.entries.iter().position(|e| e.tag == 1000 && e.ty == 6)?;
+            let j = g.entries.iter().position(|e| e.tag == 1001 && e.ty == 6)?;
+            let (oi, oj) = (g.entries[i].off as usize, g.entries[j].off as usize);
+            let li = g.store[oi..].iter().position(|x| *x == 0)? + 1;
+            let lj = g.store[oj..].iter().position(|x| *x == 0)? + 1;
+            if oi + li != oj {
+                return None;
+            }
+            let (si, sj) = (g.store[oi..oi + li].to_vec(), g.store[oj..oj + lj].to_vec());
+            g.store[oi..oi + lj].copy_from_slice(&sj);
+            g.store[oi + lj..oi + lj + li].copy_from_slice(&si);
+            g.entries[j].off = oi as i32;
+            g.entries[i].off = (oi + lj) as i32;
+        }
+        "extratag" => {
+            // an entry under a tag below 1000 (269, RPMTAG_SHA1HEADER: what rpm merges in from the signature header when a
+            // package is installed), placed where tag order puts it; its data goes to the end of the store
+            let off = g.store.len() as i32;
+            g.store.extend_from_slice(b"da39a3ee5e6b4b0d3255bfef95601890afd80709\0");
+            let at = g.entries.iter().position(|e| e.tag > 269 && e.tag != 63).unwrap_or(g.entries.len());
+            g.entries.insert(at, crate::pkggen::GEntry { tag: 269, ty: 6, off, cnt: 1 });
+        }
+        _ => return None,
+    }
+    // the signature header of a built package records one thing, the SHA-256 of the main header as hex text: put the
+    // digest of the EDITED header there (computed here — the library under test takes no part in making the start package)
+    use sha2::Digest;
+    let old_digest = hex::encode(sha2::Sha256::digest(&bytes[a..b]));
+    let new_header = g.bytes();
+    let new_digest = hex::encode(sha2::Sha256::digest(&new_header));
+    let at = bytes[..a].windows(old_digest.len()).position(|w| w == old_digest.as_bytes())?;
+    let mut out = bytes[..a].to_vec();
+    out[at..at + new_digest.len()].copy_from_slice(new_digest.as_bytes());
+    out.extend(new_header);
+    out.extend_from_slice(&bytes[b..]);
+    Some(out)
+}
+
+const VARIANT_KINDS: [&str; 4] = ["latin1", "noncanon", "swapped", "extratag"];
+
 fn start_package(kind: &str, blob: &str) -> Option<rpm::Package> {
     let path = blob.strip_prefix('@')?;
     match kind {
@@ -138,6 +245,11 @@ fn start_package(kind: &str, blob: &str) -> Option<rpm::Package> {
             p.write(&mut bytes).ok()?;
             write_if_changed(path, &bytes);
             Some(p)
+        }
+        k if VARIANT_KINDS.contains(&k) => {
+            let bytes = variant_start(k)?;
+            write_if_changed(path, &bytes);
+            rpm::Package::parse(&mut &bytes[..]).ok()
         }
         _ => None,
     }
@@ -220,8 +332,9 @@ fn header_bytes(p: &rpm::Package) -> Vec<u8> {
     w[o.header as usize..o.payload as usize].to_vec()
 }
 
-/// the record of one state; `fresh` = index of the key that made the signature in the step just taken
-fn record(p: &rpm::Package, fresh: Option<usize>, gpg: bool) -> String {
+/// the record of one state; `fresh` = index of the key that made the signature in the step just taken; `res` = what the
+/// step answered (see the module comment)
+fn record(p: &rpm::Package, fresh: Option<usize>, gpg: bool, res: &str) -> String {
     let bits: String = with_keys(|k| {
         k.verifiers.iter().map(|v| if p.verify_signature(v).is_ok() { '1' } else { '0' }).collect()
     });
@@ -231,7 +344,7 @@ fn record(p: &rpm::Package, fresh: Option<usize>, gpg: bool) -> String {
     };
     let dig = if p.verify_digests().is_ok() { "ok" } else { "err" };
     let h = header_bytes(p);
-    let mut r = format!("{},{},{},{:016x},{:016x}", bits, ids, dig, fnv(&h), fnv(&p.content));
+    let mut r = format!("{},{},{},{:016x},{:016x},{}", bits, ids, dig, fnv(&h), fnv(&p.content), res);
     if gpg {
         let g = match fresh {
             Some(idx) => match legacy_sig(p) {
@@ -246,11 +359,176 @@ fn record(p: &rpm::Package, fresh: Option<usize>, gpg: bool) -> String {
     r
 }
 
-/// one step on the real package; Err = the library refused
-fn apply(p: &mut rpm::Package, op: &str) -> Result<Option<usize>, ()> {
+/// any `Signing` implementation the histories hand to `sign` / `sign_with_timestamp`
+#[derive(Debug)]
+enum AnySigner {
+    /// the real signer of key `idx` (RSA signatures memoised)
+    Key(MemoSigner),
+    /// the protected key WITHOUT its passphrase: the real `pgp::Signer` answers `Err(SignError)`
+    Locked(Box<Signer>),
+    /// a foreign implementation of the trait that refuses
+    Failing,
+    /// a foreign implementation of the trait that answers with bytes of its own
+    Raw(Vec<u8>),
+}
+
+impl rpm::signature::Signing for AnySigner {
+    type Signature = Vec<u8>;
+    fn sign(&self, data: impl std::io::Read, t: rpm::Timestamp) -> Result<Vec<u8>, rpm::Error> {
+        match self {
+            AnySigner::Key(m) => m.sign(data, t),
+            AnySigner::Locked(s) => s.sign(data, t),
+            AnySigner::Failing => Err(rpm::Error::KeyNotFoundError { key_ref: "harness".into() }),
+            AnySigner::Raw(b) => Ok(b.clone()),
+        }
+    }
+    fn algorithm(&self) -> rpm::signature::AlgorithmType {
+        match self {
+            AnySigner::Key(m) => m.algorithm(),
+            AnySigner::Locked(s) => s.algorithm(),
+            _ => rpm::signature::AlgorithmType::RSA,
+        }
+    }
+}
+
+/// the error classes a signing attempt can end in
+fn err_class(e: &rpm::Error) -> &'static str {
+    match e {
+        rpm::Error::SignError(_) => "SignError",
+        rpm::Error::NoSignatureFound => "NoSignatureFound",
+        rpm::Error::UnsupportedPGPKeyType(_) => "UnsupportedPGPKeyType",
+        rpm::Error::KeyNotFoundError { .. } => "KeyNotFoundError",
+        _ => "other",
+    }
+}
+
+/// the timestamp argument of a signing step
+#[derive(Clone, Copy)]
+enum Ts {
+    U32(u32),
+    Sys(i64, u32),
+    Utc(i64, u32),
+    Fix(i64, u32),
+    /// `Package::sign`: the wall clock
+    Now,
+}
+
+fn system_time(secs: i64, nanos: u32) -> Option<std::time::SystemTime> {
+    use std::time::{Duration, SystemTime};
+    const NS: u32 = 1_000_000_000;
+    if secs >= 0 {
+        SystemTime::UNIX_EPOCH.checked_add(Duration::new(secs as u64, nanos))
+    } else if nanos == 0 {
+        SystemTime::UNIX_EPOCH.checked_sub(Duration::new(secs.unsigned_abs(), 0))
+    } else {
+        SystemTime::UNIX_EPOCH.checked_sub(Duration::new(secs.unsigned_abs() - 1, NS - nanos))
+    }
+}
+
+fn parse_ts(s: &str) -> Option<Ts> {
+    let f: Vec<&str> = s.split(':').collect();
+    if f.len() != 3 {
+        return None;
+    }
+    let secs: i64 = f[1].parse().ok()?;
+    let nanos: u32 = f[2].parse().ok()?;
+    if nanos >= 1_000_000_000 {
+        return None;
+    }
+    match f[0] {
+        "u32" if nanos == 0 => Some(Ts::U32(u32::try_from(secs).ok()?)),
+        "sys" => Some(Ts::Sys(secs, nanos)),
+        "utc" => Some(Ts::Utc(secs, nanos)),
+        "fix" => Some(Ts::Fix(secs, nanos)),
+        _ => None,
+    }
+}
+
+/// a parsed signing step
+struct SignStep {
+    signer: AnySigner,
+    /// index of the key when the signer is a usable key
+    key: Option<usize>,
+    ts: Ts,
+}
+
+fn parse_sign_step(op: &str) -> Option<SignStep> {
+    let (head, ts) = match op.split_once('@') {
+        Some((h, t)) => (h, Some(parse_ts(t)?)),
+        None => (op, None),
+    };
+    let key_of = |c: char| LETTERS.iter().position(|l| *l == c);
+    let mut ch = head.chars();
+    let verb = ch.next()?;
+    let rest: String = ch.collect();
+    match verb {
+        's' | 'S' | 'n' => {
+            let mut rc = rest.chars();
+            let idx = key_of(rc.next()?)?;
+            if rc.next().is_some() {
+                return None;
+            }
+            let ts = match (verb, ts) {
+                ('s', None) => Ts::U32(T),
+                ('s', Some(t)) => t,
+                // `S<key>`: a creation time far in the future of every clock involved
+                ('S', None) => Ts::U32(4_000_000_000),
+                ('n', None) => Ts::Now,
+                _ => return None,
+            };
+            Some(SignStep { signer: AnySigner::Key(MemoSigner { idx }), key: Some(idx), ts })
+        }
+        'x' => {
+            let signer = match rest.as_str() {
+                "P" => {
+                    // the protected key WITHOUT its passphrase
+                    let sec = std::fs::read(format!("{}/secret_{}.asc", KEYDIR, NAMES[1])).ok()?;
+                    AnySigner::Locked(Box::new(Signer::load_from_asc_bytes(&sec).ok()?))
+                }
+                "F" => AnySigner::Failing,
+                _ => return None,
+            };
+            Some(SignStep { signer, key: None, ts: ts.unwrap_or(Ts::U32(T)) })
+        }
+        'r' => {
+            let raw = if rest == "-" { vec![] } else { hex::decode(&rest).ok()? };
+            Some(SignStep { signer: AnySigner::Raw(raw), key: None, ts: ts.unwrap_or(Ts::U32(T)) })
+        }
+        _ => None,
+    }
+}
+
+fn now_secs() -> i64 {
+    std::time::SystemTime::now().duration_since(std::time::UNIX_EPOCH).map(|d| d.as_secs() as i64).unwrap_or(-1)
+}
+
+/// creation time of the signature in the legacy tag, read with the pgp crate
+fn created_of(p: &rpm::Package) -> Option<i64> {
+    let sig = legacy_sig(p)?;
+    let s = pgp::packet::PacketParser::new(&sig[..]).find_map(|x| match x {
+        Ok(pgp::packet::Packet::Signature(s)) => Some(s),
+        _ => None,
+    })?;
+    s.created().map(|d| d.timestamp())
+}
+
+/// what one step did
+enum Step {
+    /// the call returned (Ok or a refusal): `fresh` = key that made a new signature, `res` = the record's last column
+    Done { fresh: Option<usize>, res: String },
+    /// clear / write + parse failed
+    Failed,
+    Panicked,
+    /// the instant cannot be expressed in the requested type on this platform
+    Unrepresentable,
+}
+
+/// one step on the real package
+fn apply(p: &mut rpm::Package, op: &str) -> Step {
+    use std::panic::AssertUnwindSafe;
     match op {
-        "c" => {
-            p.clear_signatures().map_err(|_| ())?;
+        "c" => match guarded(AssertUnwindSafe(|| -> Result<(), rpm::Error> {
+            p.clear_signatures()?;
             // the same header through the public `SignatureHeaderBuilder`: a (junk) signature added and removed again with
             // `clear_signatures()` must leave exactly the unsigned header `Package::clear_signatures` installs
             use sha2::Digest;
@@ -259,35 +537,71 @@ fn apply(p: &mut rpm::Package, op: &str) -> Result<Option<usize>, ()> {
                 .set_sha256_digest(&digest)
                 .add_openpgp_signature(vec![0xff, 0x00, 0x01, 0x02, 0x03])
                 .clear_signatures()
-                .build()
-                .map_err(|_| ())?;
-            if alt != p.metadata.signature { return Err(()); }
-            Ok(None)
-        }
+                .build()?;
+            if alt != p.metadata.signature {
+                return Err(rpm::Error::NoSignatureFound);
+            }
+            Ok(())
+        })) {
+            Ok(Ok(())) => Step::Done { fresh: None, res: "-".into() },
+            Ok(Err(_)) => Step::Failed,
+            Err(_) => Step::Panicked,
+        },
         "w" => {
-            let mut bytes = Vec::new();
-            p.write(&mut bytes).map_err(|_| ())?;
-            *p = rpm::Package::parse(&mut &bytes[..]).map_err(|_| ())?;
-            Ok(None)
-        }
-        _ if op.len() == 2 && op.starts_with('x') => {
-            // a signing attempt the signer refuses: the protected key WITHOUT its passphrase. `sign` must fail and
-            // leave the package as it was (the record that follows shows the state).
-            let sec = std::fs::read(format!("{}/secret_{}.asc", KEYDIR, NAMES[1])).map_err(|_| ())?;
-            let locked = Signer::load_from_asc_bytes(&sec).map_err(|_| ())?;
-            match p.sign_with_timestamp(locked, T) {
-                Err(_) => Ok(None),
-                Ok(()) => Ok(Some(1)),
+            let r = guarded(AssertUnwindSafe(|| -> Result<rpm::Package, rpm::Error> {
+                let mut bytes = Vec::new();
+                p.write(&mut bytes)?;
+                rpm::Package::parse(&mut &bytes[..])
+            }));
+            match r {
+                Ok(Ok(q)) => {
+                    *p = q;
+                    Step::Done { fresh: None, res: "-".into() }
+                }
+                Ok(Err(_)) => Step::Failed,
+                Err(_) => Step::Panicked,
             }
         }
         _ => {
-            let future = op.starts_with('S');
-            let idx = LETTERS.iter().position(|l| op.len() == 2 && (op.starts_with('s') || future) && op.ends_with(*l)).ok_or(())?;
-            // `S<key>`: a creation time far in the future of every clock involved
-            // the signer is passed by reference (`impl Signing for &T`); the refused signing above passes one by value
-            let signer = MemoSigner { idx };
-            p.sign_with_timestamp(&signer, if future { 4_000_000_000u32 } else { T }).map_err(|_| ())?;
-            Ok(Some(idx))
+            let st = match parse_sign_step(op) {
+                Some(st) => st,
+                None => return Step::Failed,
+            };
+            let SignStep { signer, key, ts } = st;
+            let t0 = now_secs();
+            let r: Result<Result<(), rpm::Error>, String> = match ts {
+                Ts::U32(n) => guarded(AssertUnwindSafe(|| p.sign_with_timestamp(signer, n))),
+                Ts::Sys(s, n) => match system_time(s, n) {
+                    Some(t) => guarded(AssertUnwindSafe(|| p.sign_with_timestamp(signer, t))),
+                    None => return Step::Unrepresentable,
+                },
+                Ts::Utc(s, n) => match chrono::DateTime::<chrono::Utc>::from_timestamp(s, n) {
+                    Some(t) => guarded(AssertUnwindSafe(|| p.sign_with_timestamp(signer, t))),
+                    None => return Step::Unrepresentable,
+                },
+                Ts::Fix(s, n) => match (chrono::DateTime::<chrono::Utc>::from_timestamp(s, n), chrono::FixedOffset::east_opt(20_700)) {
+                    (Some(t), Some(z)) => {
+                        let t: chrono::DateTime<chrono::FixedOffset> = t.with_timezone(&z);
+                        guarded(AssertUnwindSafe(|| p.sign_with_timestamp(signer, t)))
+                    }
+                    _ => return Step::Unrepresentable,
+                },
+                // `Package::sign`, handed a REFERENCE to the signer (`impl Signing for &T`)
+                Ts::Now => guarded(AssertUnwindSafe(|| p.sign(&signer))),
+            };
+            let t1 = now_secs();
+            match r {
+                Err(_) => Step::Panicked,
+                Ok(Err(e)) => Step::Done { fresh: None, res: format!("e:{}", err_class(&e)) },
+                Ok(Ok(())) => {
+                    let res = match (created_of(p), ts) {
+                        (Some(c), Ts::Now) if t0 <= c && c <= t1 => "tnow".to_string(),
+                        (Some(c), _) => format!("t{}", c),
+                        (None, _) => "t?".to_string(),
+                    };
+                    Step::Done { fresh: key, res }
+                }
+            }
         }
     }
 }
@@ -297,6 +611,15 @@ fn split_ops(ops: &str) -> Vec<&str> {
 }
 
 pub fn eval(op: &str, a: &[&str]) -> Option<String> {
+    match op {
+        "sgbuild" if a.len() == 1 => return Some(sgbuild(a[0].parse().ok()?)),
+        "sgnew" if a.len() == 1 => return Some(sgnew(a[0].parse().ok()?)),
+        "vfload" if a.len() == 1 => return Some(vfload(a[0].parse().ok()?)),
+        "sgcfg" if a.len() == 4 => return Some(sgcfg(a[0].parse().ok()?, a[1].parse().ok()?)),
+        "sgcfgk" if a.len() == 4 => return Some(sgcfgk(a[0], a[1].parse().ok()?)),
+        "tsopt" if a.len() == 2 => return Some(tsopt(a[0].parse().ok()?, a[1].parse().ok()?)),
+        _ => {}
+    }
     if op != "hist" || a.len() < 4 {
         return None;
     }
@@ -305,12 +628,20 @@ pub fn eval(op: &str, a: &[&str]) -> Option<String> {
         Some(p) => p,
         None => return Some("start-err".into()),
     };
-    let mut recs = vec![record(&p, None, gpg)];
+    let mut recs = vec![record(&p, None, gpg, "-")];
     for o in split_ops(a[2]) {
         match apply(&mut p, o) {
-            Ok(fresh) => recs.push(record(&p, fresh, gpg)),
-            Err(()) => {
+            Step::Done { fresh, res } => recs.push(record(&p, fresh, gpg, &res)),
+            Step::Failed => {
                 recs.push(format!("E:{}", o));
+                break;
+            }
+            Step::Panicked => {
+                recs.push(format!("P:{}", o));
+                break;
+            }
+            Step::Unrepresentable => {
+                recs.push(format!("U:{}", o));
                 break;
             }
         }
@@ -320,6 +651,301 @@ pub fn eval(op: &str, a: &[&str]) -> Option<String> {
         with_keys(|k| k.gpg.clear());
     }
     Some(recs.join(";"))
+}
+
+
+/* ---------------------------------------------------------------------------------------------
+ * the algorithm tables and the signer's configuration (ops sgbuild, sgnew, vfload, sgcfg, sgcfgk, tsopt)
+ * ------------------------------------------------------------------------------------------- */
+
+fn mpi(bits: u16, bytes: &[u8]) -> Vec<u8> {
+    let mut v = bits.to_be_bytes().to_vec();
+    v.extend_from_slice(bytes);
+    v
+}
+
+/// signature material in the shape the pgp crate's packet reader expects for the algorithm
+fn sig_material(alg: u8) -> Vec<u8> {
+    match alg {
+        1 | 3 | 100..=110 => mpi(9, &[1, 2]),
+        17 | 19 | 22 => {
+            let mut v = mpi(9, &[1, 2]);
+            v.extend(mpi(9, &[1, 3]));
+            v
+        }
+        27 => vec![7u8; 64],
+        _ => vec![],
+    }
+}
+
+/// a hand-made v4 signature packet (binary document, SHA-256, no sub-packets) of public-key algorithm `alg`
+pub fn crafted_sig_packet(alg: u8) -> Vec<u8> {
+    let mut body = vec![4u8, 0, alg, 8, 0, 0, 0, 0, 0xab, 0xcd];
+    body.extend(sig_material(alg));
+    let mut p = vec![0xC2u8, body.len() as u8];
+    p.extend(body);
+    p
+}
+
+fn sgbuild(alg: u8) -> String {
+    let r = rpm::SignatureHeaderBuilder::new().set_sha256_digest("00").add_openpgp_signature(crafted_sig_packet(alg)).build();
+    match r {
+        Ok(h) => {
+            let rsa = h.get_entry_data_as_binary(rpm::IndexSignatureTag::RPMSIGTAG_RSA).is_ok();
+            let dsa = h.get_entry_data_as_binary(rpm::IndexSignatureTag::RPMSIGTAG_DSA).is_ok();
+            let n = h.get_entry_data_as_string_array(rpm::IndexSignatureTag::RPMSIGTAG_OPENPGP).map(|v| v.len()).unwrap_or(0);
+            match (rsa, dsa, n) {
+                (true, false, 1) => format!("ok {}", rpm::IndexSignatureTag::RPMSIGTAG_RSA as u32),
+                (false, true, 1) => format!("ok {}", rpm::IndexSignatureTag::RPMSIGTAG_DSA as u32),
+                _ => "ok ?".into(),
+            }
+        }
+        Err(e) => format!("err:{}", err_class(&e)),
+    }
+}
+
+/// the body of the primary key packet of one of the repo's public test keys
+fn real_key_body(name: &str) -> Option<Vec<u8>> {
+    use pgp::composed::Deserializable;
+    use pgp::ser::Serialize;
+    let t = std::fs::read_to_string(format!("{}/public_{}.asc", KEYDIR, name)).ok()?;
+    let (k, _) = pgp::SignedPublicKey::from_string(&t).ok()?;
+    k.primary_key.to_bytes().ok()
+}
+
+/// the body of a v4 public-key packet of algorithm `alg`, with key material in the shape the pgp crate's reader expects
+/// (real material of the test keys where the reader validates it)
+pub fn key_body(alg: u8) -> Option<Vec<u8>> {
+    let with = |b: Option<Vec<u8>>| {
+        b.map(|mut b| {
+            b[5] = alg;
+            b
+        })
+    };
+    let head = |alg: u8| vec![4u8, 0x5f, 0x5e, 0x10, 0x00, alg];
+    match alg {
+        1 | 2 | 3 => with(real_key_body("rsa4096")),
+        19 => with(real_key_body("ecdsa_p256")),
+        22 => with(real_key_body("ed25519")),
+        27 => {
+            let b = real_key_body("ed25519")?;
+            let mut v = b[..6].to_vec();
+            v[5] = 27;
+            v.extend_from_slice(&b[b.len() - 32..]);
+            Some(v)
+        }
+        25 => {
+            let mut v = head(alg);
+            v.extend([9u8; 32]);
+            Some(v)
+        }
+        16 | 20 => {
+            let mut v = head(alg);
+            for _ in 0..3 {
+                v.extend(mpi(9, &[1, 5]));
+            }
+            Some(v)
+        }
+        17 => {
+            let mut v = head(alg);
+            for _ in 0..4 {
+                v.extend(mpi(9, &[1, 5]));
+            }
+            Some(v)
+        }
+        18 => {
+            // ECDH over Curve25519: OID, point, KDF parameters
+            let mut v = head(alg);
+            v.extend([10u8, 0x2b, 0x06, 0x01, 0x04, 0x01, 0x97, 0x55, 0x01, 0x05, 0x01]);
+            let b = real_key_body("ed25519")?;
+            let mut pt = vec![0x40u8];
+            pt.extend_from_slice(&b[b.len() - 32..]);
+            v.extend(mpi(263, &pt));
+            v.extend([3u8, 1, 8, 7]);
+            Some(v)
+        }
+        _ => {
+            let mut v = head(alg);
+            v.extend([1u8, 2, 3, 4, 5, 6, 7, 8]);
+            Some(v)
+        }
+    }
+}
+
+fn new_packet(tag: u8, body: &[u8]) -> Vec<u8> {
+    let mut p = vec![0xC0 | tag, 255];
+    p.extend((body.len() as u32).to_be_bytes());
+    p.extend_from_slice(body);
+    p
+}
+
+fn alg_type_name(a: rpm::signature::AlgorithmType) -> &'static str {
+    match a {
+        rpm::signature::AlgorithmType::RSA => "RSA",
+        rpm::signature::AlgorithmType::ECDSA => "ECDSA",
+        rpm::signature::AlgorithmType::EdDSA => "EdDSA",
+    }
+}
+
+/// a "secret key" that is a public key packet plus a secret-key operation that answers with fixed material: everything
+/// `pgp::Signer` does itself (configuration, sub-packets, serialisation) runs for real, the cryptography does not
+#[derive(Debug, Clone)]
+struct FakeSecret(pgp::packet::PublicKey);
+
+impl pgp::types::PublicKeyTrait for FakeSecret {
+    fn version(&self) -> pgp::types::KeyVersion { self.0.version() }
+    fn fingerprint(&self) -> pgp::types::Fingerprint { self.0.fingerprint() }
+    fn key_id(&self) -> pgp::types::KeyId { self.0.key_id() }
+    fn algorithm(&self) -> pgp::crypto::public_key::PublicKeyAlgorithm { self.0.algorithm() }
+    fn created_at(&self) -> &chrono::DateTime<chrono::Utc> { self.0.created_at() }
+    fn expiration(&self) -> Option<u16> { self.0.expiration() }
+    fn verify_signature(&self, hash: pgp::crypto::hash::HashAlgorithm, data: &[u8], sig: &pgp::types::SignatureBytes) -> pgp::errors::Result<()> {
+        self.0.verify_signature(hash, data, sig)
+    }
+    fn encrypt<R: rand::CryptoRng + rand::Rng>(&self, rng: R, plain: &[u8], typ: pgp::types::EskType) -> pgp::errors::Result<pgp::types::PkeskBytes> {
+        self.0.encrypt(rng, plain, typ)
+    }
+    fn serialize_for_hashing(&self, writer: &mut impl std::io::Write) -> pgp::errors::Result<()> {
+        self.0.serialize_for_hashing(writer)
+    }
+    fn public_params(&self) -> &pgp::types::PublicParams { self.0.public_params() }
+}
+
+impl pgp::types::SecretKeyTrait for FakeSecret {
+    type PublicKey = pgp::packet::PublicKey;
+    type Unlocked = ();
+    fn unlock<F, G, T>(&self, _pw: F, work: G) -> pgp::errors::Result<T>
+    where
+        F: FnOnce() -> String,
+        G: FnOnce(&Self::Unlocked) -> pgp::errors::Result<T>,
+    {
+        work(&())
+    }
+    fn create_signature<F>(&self, _key_pw: F, _hash: pgp::crypto::hash::HashAlgorithm, _data: &[u8]) -> pgp::errors::Result<pgp::types::SignatureBytes>
+    where
+        F: FnOnce() -> String,
+    {
+        use pgp::types::{Mpi, PublicKeyTrait};
+        Ok(match u8::from(self.algorithm()) {
+            17 | 19 | 22 => pgp::types::SignatureBytes::Mpis(vec![Mpi::from_slice(&[1, 2]), Mpi::from_slice(&[1, 3])]),
+            27 => pgp::types::SignatureBytes::Native(vec![7u8; 64]),
+            _ => pgp::types::SignatureBytes::Mpis(vec![Mpi::from_slice(&[1, 2])]),
+        })
+    }
+    fn public_key(&self) -> Self::PublicKey { self.0.clone() }
+}
+
+fn fake_key(alg: u8) -> Option<FakeSecret> {
+    let body = key_body(alg)?;
+    pgp::packet::PublicKey::from_slice(pgp::types::Version::New, &body).ok().map(FakeSecret)
+}
+
+fn sgnew(alg: u8) -> String {
+    use rpm::signature::Signing;
+    match fake_key(alg) {
+        None => "unparsable".into(),
+        Some(k) => match Signer::new(k) {
+            Ok(s) => format!("ok {}", alg_type_name(s.algorithm())),
+            Err(e) => format!("err:{}", err_class(&e)),
+        },
+    }
+}
+
+fn vfload(alg: u8) -> String {
+    use pgp::composed::Deserializable;
+    use rpm::signature::Verifying;
+    let body = match key_body(alg) {
+        Some(b) => b,
+        None => return "unparsable".into(),
+    };
+    let mut cert = new_packet(6, &body);
+    cert.extend(new_packet(13, b"x <x@y>"));
+    let asc = match pgp::SignedPublicKey::from_bytes(std::io::Cursor::new(&cert[..])).ok().and_then(|k| k.to_armored_string(Default::default()).ok()) {
+        Some(a) => a,
+        None => return "unparsable".into(),
+    };
+    match Verifier::load_from_asc(&asc) {
+        Ok(v) => format!("ok {}", alg_type_name(v.algorithm())),
+        Err(e) => format!("err:{}", err_class(&e)),
+    }
+}
+
+/// what a signature packet says, read back with the pgp crate
+fn describe_sig(raw: &[u8]) -> String {
+    let sig = match pgp::packet::PacketParser::new(raw).find_map(|x| match x {
+        Ok(pgp::packet::Packet::Signature(s)) => Some(s),
+        _ => None,
+    }) {
+        Some(s) => s,
+        None => return "unreadable".into(),
+    };
+    let list = |v: Vec<String>| if v.is_empty() { "-".to_string() } else { v.join(",") };
+    let types = |v: &[pgp::packet::Subpacket]| list(v.iter().map(|sp| sp.typ().as_u8(false).to_string()).collect());
+    let c = &sig.config;
+    format!(
+        "v={} typ={} alg={} hash={} hashed={} unhashed={} created={} issuers={} fps={}",
+        u8::from(c.version()),
+        u8::from(c.typ),
+        u8::from(c.pub_alg),
+        u8::from(c.hash_alg),
+        types(&c.hashed_subpackets),
+        types(&c.unhashed_subpackets),
+        sig.created().map(|d| d.timestamp().to_string()).unwrap_or_else(|| "-".into()),
+        list(sig.issuer().iter().map(|k| hex::encode(k.as_ref())).collect()),
+        list(sig.issuer_fingerprint().iter().map(|f| hex::encode(f.as_bytes())).collect()),
+    )
+}
+
+/// `<pgp::Signer as Signing>::sign` over a fake secret key of algorithm `alg`
+fn sgcfg(alg: u8, t: u32) -> String {
+    use rpm::signature::Signing;
+    let k = match fake_key(alg) {
+        Some(k) => k,
+        None => return "unparsable".into(),
+    };
+    let signer = match Signer::new(k) {
+        Ok(s) => s,
+        Err(e) => return format!("err:{}", err_class(&e)),
+    };
+    match guarded(std::panic::AssertUnwindSafe(|| signer.sign(&b"some header bytes"[..], rpm::Timestamp::from(t)))) {
+        Ok(Ok(raw)) => describe_sig(&raw),
+        Ok(Err(e)) => format!("err:{}", err_class(&e)),
+        Err(_) => "panic".into(),
+    }
+}
+
+/// … and over the real key `K`
+fn sgcfgk(key: &str, t: u32) -> String {
+    use rpm::signature::Signing;
+    let idx = match LETTERS.iter().position(|l| key.len() == 1 && key.starts_with(*l)) {
+        Some(i) => i,
+        None => return "bad-key".into(),
+    };
+    let r = guarded(std::panic::AssertUnwindSafe(|| with_keys(|k| k.signers[idx].sign(&b"some header bytes"[..], rpm::Timestamp::from(t)))));
+    match r {
+        Ok(Ok(raw)) => describe_sig(&raw),
+        Ok(Err(e)) => format!("err:{}", err_class(&e)),
+        Err(_) => "panic".into(),
+    }
+}
+
+fn tsopt(secs: i64, nsecs: u32) -> String {
+    use chrono::offset::TimeZone;
+    match chrono::Utc.timestamp_opt(secs, nsecs) {
+        chrono::offset::LocalResult::Single(d) => format!("single {} {}", d.timestamp(), d.timestamp_subsec_nanos()),
+        chrono::offset::LocalResult::None => "none".into(),
+        _ => "ambiguous".into(),
+    }
+}
+
+/// RFC 4880 §12.2 for a v4 key packet body: (key id, fingerprint) as hex — computed here, not by the pgp crate
+fn v4_ids(body: &[u8]) -> (String, String) {
+    use sha1::Digest;
+    let mut h = sha1::Sha1::new();
+    h.update([0x99, (body.len() >> 8) as u8, body.len() as u8]);
+    h.update(body);
+    let fp = h.finalize();
+    (hex::encode(&fp[12..20]), hex::encode(&fp[..]))
 }
 
 fn b64_decode(text: &str) -> Vec<u8> {
@@ -347,7 +973,7 @@ fn b64_decode(text: &str) -> Vec<u8> {
 
 /// RFC 4880 §12.2, computed here from the armoured public key file (NOT through rpm-rs or the pgp crate):
 /// key id = low 64 bits of SHA-1(0x99 ‖ 2-byte length ‖ public-key packet body) of the primary (v4) key
-fn key_id_of_public_asc(path: &str) -> Option<String> {
+fn key_id_of_public_asc(path: &str) -> Option<(String, String)> {
     use sha1::Digest;
     let text = std::fs::read_to_string(path).ok()?;
     let mut body = String::new();
@@ -388,13 +1014,13 @@ fn key_id_of_public_asc(path: &str) -> Option<String> {
     h.update([0x99, (len >> 8) as u8, len as u8]);
     h.update(pk);
     let fp = h.finalize();
-    Some(hex::encode(&fp[12..20]))
+    Some((hex::encode(&fp[12..20]), hex::encode(&fp[..])))
 }
 
 /// the key ids the four keys must be reported under
 fn id_table() -> String {
     LETTERS.iter().enumerate()
-        .map(|(i, l)| format!("{}={}", l, key_id_of_public_asc(&format!("{}/public_{}.asc", KEYDIR, NAMES[i])).unwrap_or_else(|| "unknown".into())))
+        .map(|(i, l)| format!("{}={}", l, key_id_of_public_asc(&format!("{}/public_{}.asc", KEYDIR, NAMES[i])).map(|x| x.0).unwrap_or_else(|| "unknown".into())))
         .collect::<Vec<_>>()
         .join(",")
 }
@@ -462,12 +1088,12 @@ impl Walk<'_> {
             if self.needed(ops) {
                 let mut q = p.clone();
                 match apply(&mut q, o) {
-                    Ok(fresh) => {
-                        recs.push(record(&q, fresh, self.gpg));
+                    Step::Done { fresh, res } => {
+                        recs.push(record(&q, fresh, self.gpg, &res));
                         self.dfs(&q, ops, recs);
                     }
-                    Err(()) => {
-                        recs.push(format!("E:{}", o));
+                    other => {
+                        recs.push(format!("{}:{}", match other { Step::Panicked => "P", Step::Unrepresentable => "U", _ => "E" }, o));
                         if self.owner(ops) == self.ctx.shard.0 {
                             let l = self.line(ops);
                             self.ctx.emit(&l, &recs.join(";"));
@@ -481,10 +1107,75 @@ impl Walk<'_> {
     }
 }
 
+/// the special step forms: refused attempts, signatures dated in the future, every timestamp type, `Package::sign`,
+/// foreign signers, and (judged `dontcare`: the property speaks of valid operations) instants no `Timestamp` can hold
+fn special_histories() -> Vec<String> {
+    let unsupported = hex::encode(crafted_sig_packet(17));
+    let accepted = hex::encode(crafted_sig_packet(1));
+    let mut v: Vec<String> = ["xP", "sE,xP", "sR,w,xP,w", "c,xP", "xP,sC", "sE,xP,c", "SE", "sR,SE,w", "SR,c,SC", "SP,w,sR"].iter().map(|s| s.to_string()).collect();
+    v.extend([
+        // the instant as a u32 / SystemTime / DateTime<Utc> / DateTime<FixedOffset>, inside the range (incl. its two ends)
+        "sE@sys:1600000000:5", "sR@utc:1500000000:999999999,w", "sC@fix:1600000000:1,c,sE@u32:0:0", "sE@u32:4294967295:0,w",
+        "sE@sys:4294967295:999999999", "sP@fix:0:0", "sC@utc:0:999999999,sE@sys:0:0",
+        // Package::sign
+        "nE", "nR,w", "sE,nC,c,nP",
+        // signers that refuse / answer with bytes `build` turns down: the state must not move
+        "xF", "sE,xF,w", "xF,c,xP,sR", "r010203", "sE,r010203,w", "r-,sC",
+        // outside the range: `try_into().unwrap()` panics — before the signer is asked
+        "sE@sys:-1:0", "sE,sR@sys:-1:999999999,c", "sE@utc:4294967296:0", "c,sC@fix:-1:0", "sE,xF@sys:4294967296:0", "xP@utc:-5:0",
+        "sR,r010203@fix:4294967296:5", "sE,w,sE@sys:8000000000:0",
+    ].iter().map(|s| s.to_string()));
+    v.push(format!("sC,r{}", unsupported));
+    v.push(format!("r{},sE,w", unsupported));
+    v.push(format!("xF,r{}@utc:1600000000:0,c", unsupported));
+    // a foreign signer whose bytes `build` files under RPMSIGTAG_RSA: not one of the property's operations
+    v.push(format!("sE,r{},w", accepted));
+    v
+}
+
+/// the table / configuration ties
+fn table_requests(ctx: &Ctx) -> Vec<String> {
+    let mut v = Vec::new();
+    for alg in 0..=255u32 {
+        v.push(format!("sgbuild {}", alg));
+        v.push(format!("sgnew {}", alg));
+        v.push(format!("vfload {}", alg));
+    }
+    let times: [u32; 7] = [0, 1, 1_600_000_000, 0x7fff_ffff, 0x8000_0000, 4_000_000_000, u32::MAX];
+    for alg in [1u8, 19, 22, 27, 17, 3, 0, 200] {
+        let ids = key_body(alg).map(|b| v4_ids(&b));
+        for t in times {
+            if let Some((kid, fp)) = &ids {
+                v.push(format!("sgcfg {} {} {} {}", alg, t, kid, fp));
+            }
+        }
+    }
+    for (i, l) in LETTERS.iter().enumerate() {
+        if let Some((kid, fp)) = key_id_of_public_asc(&format!("{}/public_{}.asc", KEYDIR, NAMES[i])) {
+            for t in if ctx.thorough { &times[..] } else { &times[2..3] }.iter().chain([0u32, u32::MAX].iter()) {
+                v.push(format!("sgcfgk {} {} {} {}", l, t, kid, fp));
+            }
+        }
+    }
+    // chrono's `timestamp_opt`: the ends of the representable range, the u32 window, leap-second notation
+    let (lo, hi) = (-8_334_601_228_800i64, 8_210_266_876_799i64);
+    for secs in [lo - 86_400, lo - 1, lo, lo + 1, -1, 0, 1, 59, 60, 1_600_000_000, u32::MAX as i64, u32::MAX as i64 + 1, hi - 1, hi, hi + 1, hi + 86_400, i64::MIN, i64::MAX] {
+        for nsecs in [0u32, 999_999_999, 1_000_000_000, 1_999_999_999, 2_000_000_000, u32::MAX] {
+            v.push(format!("tsopt {} {}", secs, nsecs));
+        }
+    }
+    v
+}
+
 pub fn gen(ctx: &mut Ctx) {
     let ids = id_table();
     let gpg = ctx.thorough;
     let cwd = std::env::current_dir().expect("cwd");
+    for (i, r) in table_requests(ctx).into_iter().enumerate() {
+        if i as u64 % ctx.shard.1 == ctx.shard.0 {
+            ctx.req(&r);
+        }
+    }
     let mut starts: Vec<(String, String, usize)> = Vec::new();
     for k in ["built2", "built0"] {
         starts.push((k.to_string(), format!("@{}/work/C10/{}.rpm", cwd.display(), k), ctx.q(3, 5)));
@@ -495,6 +1186,11 @@ pub fn gen(ctx: &mut Ctx) {
     for f in ["rpm-empty-0-0.src.rpm", "rpm-empty-0-0.x86_64.rpm"] {
         starts.push(("file".into(), format!("@/repo/test_assets/fixture_packages/{}", f), ctx.q(2, 3)));
     }
+    // main headers the library itself would not lay out this way (see `variant_start`)
+    for k in VARIANT_KINDS {
+        starts.push((k.to_string(), format!("@{}/work/C10/{}.rpm", cwd.display(), k), ctx.q(1, 2)));
+    }
+    let specials = special_histories();
     for (n, (kind, blob, depth)) in starts.into_iter().enumerate() {
         let p = match start_package(&kind, &blob) {
             Some(p) => p,
@@ -505,13 +1201,20 @@ pub fn gen(ctx: &mut Ctx) {
                 continue;
             }
         };
-        // histories with a refused signing attempt in the middle, and with signatures dated in the future
-        for (hi, h) in ["xP", "sE,xP", "sR,w,xP,w", "c,xP", "xP,sC", "sE,xP,c", "SE", "sR,SE,w", "SR,c,SC", "SP,w,sR"].iter().enumerate() {
-            if (n + hi) as u64 % ctx.shard.1 == ctx.shard.0 && (ctx.thorough || n < 3 || hi % 3 == n % 3) {
+        for (hi, h) in specials.iter().enumerate() {
+            if (n + hi) as u64 % ctx.shard.1 == ctx.shard.0 && (ctx.thorough || n < 2 || hi % 4 == n % 4) {
                 ctx.req(&format!("hist {} {} {} {}", kind, blob, h, ids));
             }
         }
-        let first = record(&p, None, gpg);
+        // the usual two- and three-step histories from the starts whose tree is only one level deep
+        if VARIANT_KINDS.contains(&kind.as_str()) && !ctx.thorough {
+            for (hi, h) in ["sE,w,c", "sR,sC,w", "c,w,sP", "sC,c,sE"].iter().enumerate() {
+                if (n + hi) as u64 % ctx.shard.1 == ctx.shard.0 {
+                    ctx.req(&format!("hist {} {} {} {}", kind, blob, h, ids));
+                }
+            }
+        }
+        let first = record(&p, None, gpg, "-");
         let mut w = Walk { ctx: &mut *ctx, kind, blob, ids: ids.clone(), gpg, depth, base: n as u64 * 37 };
         w.dfs(&p, &mut Vec::new(), &mut vec![first]);
     }
